@@ -4,6 +4,7 @@ import (
 	"context"
 	"io"
 	"os"
+	"runtime"
 	"unsafe"
 
 	"github.com/goccy/go-json/internal/encoder"
@@ -259,6 +260,9 @@ func encodeNoEscape(ctx *encoder.RuntimeContext, v interface{}) ([]byte, error) 
 	p := uintptr(header.ptr)
 	ctx.Init(p, codeSet.CodeLength)
 	buf, err := encodeRunCode(ctx, b, codeSet)
+	// the interpreter holds the value as a uintptr only (that is what keeps it from
+	// escaping): it must stay reachable until the interpreter is done with it
+	runtime.KeepAlive(v)
 	if err != nil {
 		return nil, err
 	}
